@@ -770,11 +770,15 @@ def regimen_rows_case(ctx, rng, idx):
     dose = float(rng.uniform(0.5, 3))
     start = float(rng.uniform(0, 2))
     duration = float(rng.uniform(0.05, 0.3))
-    period = [None, float(rng.uniform(0.5, 1.5))][int(rng.integers(2))]
+    period = [None, float(rng.uniform(0.5, 1.5)),
+              float(rng.uniform(0.5, 1.5))][int(rng.integers(3))]
     num = None if period is None else [None, int(rng.integers(1, 4))][
         int(rng.integers(2))]
     times = rng.permutation(np.array([0.4, 0.9, 1.3, 2.2, 3.1, 4.5]))[
         :int(rng.integers(1, 5))]
+    if len(times) > 1 and rng.random() < 0.5:
+        # (the earliest time is listed last)
+        times = np.concatenate([np.sort(times)[1:][::-1], [times.min()]])
     if rng.random() < 0.2:
         times[0] = start            # an event exactly at the last / a time
     t_end = float(np.max(times))
@@ -813,9 +817,24 @@ def regimen_rows_case(ctx, rng, idx):
             ds = _posterior_dataset(rng, names, 2, 5, ['a', 'b'])
             model = chi.PosteriorPredictiveModel(pm, ds)
             if kind == 'pam':
+                # (candidate models with their OWN predictive models, as
+                # models of different structure would have)
+                def _pm2():
+                    m2 = ModelLibrary().one_compartment_pk_model()
+                    m2.set_administration('central', direct=bool(
+                        m.administration()['direct']))
+                    m2.set_outputs(m.outputs())
+                    return chi.PredictiveModel(
+                        m2, [getattr(chi, e)() for e in ems])
                 model = chi.PAMPredictiveModel(
-                    [model, chi.PosteriorPredictiveModel(pm, ds + 0.01)],
+                    [model, chi.PosteriorPredictiveModel(_pm2(), ds + 0.01)],
                     [0.5, 0.5])
+                # twin: the regimen is given to every candidate by hand
+                cands = [chi.PosteriorPredictiveModel(_pm2(), ds),
+                         chi.PosteriorPredictiveModel(_pm2(), ds + 0.01)]
+                for c_ in cands:
+                    c_.set_dosing_regimen(dose, start, duration, period, num)
+                pam_twin = chi.PAMPredictiveModel(cands, [0.5, 0.5])
             call = lambda **k: model.sample(  # noqa
                 times, individual='a', seed=seed, **k)
             per_sample = False
@@ -825,6 +844,11 @@ def regimen_rows_case(ctx, rng, idx):
         full = call(n_samples=n, include_regimen=True)
         one_default = call()
         one = call(n_samples=1)
+        twin_df = None
+        if kind == 'pam':
+            twin_df = pam_twin.sample(times, individual='a', seed=seed,
+                                      n_samples=max(n, 6))
+            many = call(n_samples=max(n, 6))
     except Exception as e:      # noqa
         ctx.violation_exc('sample_raises', e, {'case': feats}, feats)
         return
@@ -836,6 +860,10 @@ def regimen_rows_case(ctx, rng, idx):
                 in zip(d['ID'], d['Time'], d['Observable'], d['Value'])]
 
     prob = []
+    if twin_df is not None and meas(many) != meas(twin_df):
+        prob.append('the regimen set through the averaged model does not '
+                    'reach every candidate model (samples differ from those '
+                    'of candidates dosed one by one)')
     if meas(plain) != meas(full) or meas(plain) != meas(plain2):
         prob.append('measurement rows differ between the calls with and '
                     'without dose events')
